@@ -7,7 +7,7 @@ LEVEL = ('Contracts on the iterator life-cycle functions of pktitr.c over a ghos
          'a failed remove rolls back to its own savepoint, close = COMMIT (rollback on failure), abort = ROLLBACK, iterator released on every path.')
 UNDECIDED = ['that the statement yields every packet of the loop exactly once and in order (SQL query semantics)',
              'cif_pktitr_next_packet row grouping and packet filling (uthash macros: only bounded checks are within reach, not built)',
-             'cif_pktitr_update_packet beyond its guards: the per-item loop uses uthash (harness passes an empty packet)',
+             'cif_pktitr_update_packet for items that are in the loop: the per-item path needs a populated uthash table (the contract covers empty packets and a single foreign item)',
              'that SQLite makes a rolled-back transaction invisible and a committed one durable (assumed, it is the meaning of the ghost model)']
 SQL = 'SQLite transaction model with bodies in stubs/sqlite_model.h (six exec literals interpreted on ghost state; step counts writes; all calls may fail); cif_loop_get_category by assumed contract'
 
@@ -17,13 +17,12 @@ def jobs():
     return [
         Job('remove_packet', 'pktitr_h.c', entry='harness_remove_packet', enforce='cif_pktitr_remove_packet', replace=['cif_loop_get_category'], tus=T,
             reach=['removed-scalar', 'removed', 'misuse', 'rolled-back'], min_obligations=30, timeout=1200, mem_gb=24, replay=False, trusted=[SQL],
-            flags=['--malloc-may-fail', '--malloc-fail-null'],
             clauses=['INVALID_HANDLE when no transaction is open', 'MISUSE when no packet was delivered or it was just removed, nothing written',
                      'success => previous_row_num == -1 for scalar and ordinary loops alike', 'failure => nothing durable, savepoint rolled back, enclosing transaction intact']),
-        Job('update_packet_guards', 'pktitr_h.c', entry='harness_update_packet', enforce='cif_pktitr_update_packet', tus=T, unwind=2,
-            note='--unwind 2 with unwinding assertions: with an empty packet the uthash iteration provably does not execute',
-            reach=['updated', 'misuse'], min_obligations=30, timeout=1200, mem_gb=24, replay=False, trusted=[SQL],
-            clauses=['INVALID_HANDLE / MISUSE guards before any write']),
+        Job('update_packet_guards', 'pktitr_h.c', entry='harness_update_packet', enforce='cif_pktitr_update_packet', tus=T, unwind=3,
+            note='--unwind 3 with unwinding assertions: the packet has at most one entry and the name set is empty, so the uthash iteration provably runs at most once and HASH_FIND does not descend',
+            reach=['updated', 'misuse', 'wrong-loop'], min_obligations=30, timeout=1200, mem_gb=24, replay=False, trusted=[SQL],
+            clauses=['INVALID_HANDLE / MISUSE guards before any write', 'an item foreign to the loop is refused, nothing written', 'failure leaves the enclosing transaction and its savepoints as they were (C05)']),
         Job('close', 'pktitr_h.c', entry='harness_close', enforce='cif_pktitr_close', tus=T, reach=['closed', 'close-failed'], min_obligations=20, timeout=900, replay=False, trusted=[SQL],
             clauses=['COMMIT attempted exactly once; success => all writes durable, transaction closed', 'failure => ROLLBACK attempted, nothing durable', 'iterator freed on every path']),
         Job('abort', 'pktitr_h.c', entry='harness_abort', enforce='cif_pktitr_abort', tus=T, reach=['aborted', 'abort-failed'], min_obligations=20, timeout=900, replay=False, trusted=[SQL],
@@ -31,7 +30,7 @@ def jobs():
     ]
 
 
-PENDING = ('remove_packet', 'update_packet_guards')   # formula too large at a safe number of object bits: not registered until they discharge
+PENDING = ()
 
 
 def check(tier):
